@@ -201,6 +201,7 @@ type c05tResult struct {
 	Raw       []byte // produced batch as sent
 	Recs      []byte // fetched record set
 	EndBefore int64  // published end offset of the partition when the request was sent
+	InS3      bool   // fetch: the offset was held by a complete S3 segment when the request was sent
 }
 
 type c05tParked struct {
@@ -450,6 +451,9 @@ func c05tListOffsets(h *handler, p int32, ts int64) (int16, int64, error) {
 
 func (w *c05tWorld) request(b *c05tBroker, s c05tStep, stepNo int) c05tResult {
 	r := c05tResult{Step: s, EndBefore: w.lastEnd[s.P]}
+	if s.Op == "fetch" {
+		r.InS3 = w.inS3(s.P, s.Off)
+	}
 	switch s.Op {
 	case "produce":
 		r.Raw = c06Batch(fmt.Sprintf("s%d-b%d-p%d", stepNo, b.id, s.P), s.N, 24)
@@ -471,6 +475,30 @@ func (w *c05tWorld) request(b *c05tBroker, s c05tStep, stepNo int) c05tResult {
 		r.Code, r.Base, r.Err = c05tListOffsets(b.h, s.P, -1)
 	}
 	return r
+}
+
+// inS3: does a complete (indexed) S3 segment of partition p hold offset off?
+func (w *c05tWorld) inS3(p int32, off int64) bool {
+	prefix := fmt.Sprintf("default/%s/%d/", c05tTopic, p)
+	snap := w.obj.Snapshot()
+	for k, v := range snap {
+		if !strings.HasPrefix(k, prefix) || !strings.HasSuffix(k, ".kfs") {
+			continue
+		}
+		if _, ok := snap[strings.TrimSuffix(k, ".kfs")+".index"]; !ok {
+			continue
+		}
+		si, err := vfkit.DecodeSegment(v)
+		if err != nil {
+			continue
+		}
+		for _, b := range si.Batches {
+			if b.BaseOffset <= off && off <= b.BaseOffset+int64(b.LastOffsetDelta) {
+				return true
+			}
+		}
+	}
+	return false
 }
 
 // segmentsWritten: did the ops since opsBefore upload a segment of partition p?
@@ -545,7 +573,9 @@ func (w *c05tWorld) finish(b *c05tBroker, r c05tResult, stepNo int, cachedBefore
 		if !b.owns(s.P) {
 			w.cfg.Class("fetch-via-non-owner")
 		}
-		if s.Off < r.EndBefore && (r.Code == protocol.OFFSET_OUT_OF_RANGE || (r.Code == 0 && len(r.Recs) == 0)) {
+		// C04 is about reading what is stored: offsets that no complete segment holds (lost by
+		// another defect, e.g. a segment overwritten by a shorter one) are not its business
+		if s.Off < r.EndBefore && r.InS3 && (r.Code == protocol.OFFSET_OUT_OF_RANGE || (r.Code == 0 && len(r.Recs) == 0)) {
 			w.V04 = append(w.V04, fmt.Sprintf("step %d: broker %d answered fetch(%s/%d, offset %d) with code %d and %d bytes although the published end offset was already %d (owner of the partition: %v)",
 				stepNo, b.id, c05tTopic, s.P, s.Off, r.Code, len(r.Recs), r.EndBefore, b.owns(s.P)))
 		}
@@ -798,7 +828,7 @@ func (w *c05tWorld) run(steps []c05tStep) {
 			s.Hold = 0
 		}
 		cachedBefore := b.cached(s.P)
-		if s.Op == "fetch" && cachedBefore && s.Off < w.lastEnd[s.P] && s.Off >= b.logNext(s.P) {
+		if s.Op == "fetch" && cachedBefore && s.Off < w.lastEnd[s.P] && s.Off >= b.logNext(s.P) && w.inS3(s.P, s.Off) {
 			// finding r3: the broker's log ends below the published end offset
 			if w.cfg.ExR3 {
 				w.cfg.Excluded(c05tR3)
